@@ -141,7 +141,9 @@ def mean_case(case):
         conv_w = {None: lambda w: w, 'uint8': lambda w: np.uint8(w * 60), 'int8': lambda w: np.int8(w * 60),
                   'int16': lambda w: np.int16(w * 12000), 'jint8': lambda w: __import__('jax').numpy.int8(w * 60),
                   'f64arr': lambda w: np.asarray(w, np.float64), 'f64arr1': lambda w: np.array([w], np.float64),
-                  'f32arr': lambda w: np.asarray(w, np.float32)}[wt]
+                  'f32arr': lambda w: np.asarray(w, np.float32),
+                  # Python ints where the weight is integral, floats otherwise (the FIRST weight may be an int)
+                  'pyint': lambda w: int(w) if float(w).is_integer() else w}[wt]
         wobjs = [conv_w(w) for w in ws]          # one weight object per client, handed to both calls below
         wsnap = [np.array(w, copy=True) for w in wobjs]
         pairs = [(trees[i], wobjs[i]) for i in order]
@@ -230,6 +232,58 @@ def sum_case(case):
   return {'evals': evals, 'nontrivial': n > 1, 'outcome': [kind, n]}
 
 
+def utils_case(case):
+  """The small public tree utilities (tree_weight, tree_inverse_weight, tree_add, tree_zeros_like, tree_l2_norm,
+  tree_size, tree_sum over trees of DIFFERENT dtypes): value against NumPy, inputs alive, unchanged, not aliased - also when
+  the same input is used a second time."""
+  import jax
+  from fedjax.core import tree_util
+  kind, as_jax, seed = case['tree'], case['jax'], case.get('seed', 0)
+  evals = 0
+  for w in (2.0, 0.5, 3, np.float32(1.5), 0.0):
+    for fn_name in ('tree_weight', 'tree_inverse_weight'):
+      nc = dict(case, fn=fn_name, w=float(w))
+      tree = make_tree(kind, 1, seed, as_jax)
+      snap = snapshot(tree)
+      for rep in range(2):   # the same caller tree is handed in twice
+        out = getattr(tree_util, fn_name)(tree, w)
+        f = float(w) if fn_name == 'tree_weight' else (1.0 / float(w) if float(w) > 0 else 0.0)
+        for g, s0 in zip(leaves(out), snap):
+          r = np.asarray(s0, np.float64) * f
+          require(bool(np.all(np.abs(np.asarray(g, np.float64) - r) <= _tol(np.asarray(g).dtype) * (1 + np.abs(r)))),
+                  fn_name + ' value', r.tolist(), np.asarray(g, np.float64).tolist(), case=nc)
+        check_inputs_intact([tree], [snap], out, fn_name + ' (call %d)' % (rep + 1), nc)
+      evals += 1
+  a, b = make_tree(kind, 0, seed, as_jax), make_tree(kind, 2, seed, as_jax)
+  sa, sb = snapshot(a), snapshot(b)
+  out = tree_util.tree_add(a, b)
+  for g, x, y in zip(leaves(out), sa, sb):
+    require(np.array_equal(np.asarray(g, np.float64), np.asarray(x, np.float64) + np.asarray(y, np.float64)), 'tree_add value', case=case)
+  check_inputs_intact([a, b], [sa, sb], out, 'tree_add', case)
+  z = tree_util.tree_zeros_like(a)
+  require(all(not np.any(np.asarray(l)) and np.asarray(l).shape == s0.shape for l, s0 in zip(leaves(z), sa)), 'tree_zeros_like', case=case)
+  check_inputs_intact([a], [sa], z, 'tree_zeros_like', case)
+  n2 = float(np.sqrt(sum(np.sum(np.asarray(s0, np.float64) ** 2) for s0 in sa)))
+  require(abs(float(tree_util.tree_l2_norm(a)) - n2) <= 1e-2 * (1 + n2) if kind == 'half' else abs(float(tree_util.tree_l2_norm(a)) - n2) <= 1e-5 * (1 + n2),
+          'tree_l2_norm', n2, float(tree_util.tree_l2_norm(a)), case=case)
+  require(int(tree_util.tree_size(a)) == sum(int(np.asarray(s0).size) for s0 in sa), 'tree_size', case=case)
+  check_inputs_intact([a], [sa], None, 'tree_l2_norm / tree_size', case)
+  # tree_sum over trees whose leaves have different dtypes (an integer tree first, then float trees): nothing is truncated
+  if kind in ('vec', 'nested', 'mat_scalar'):
+    ti = jax.tree_util.tree_map(lambda l: np.asarray(l).astype(np.int32), make_tree(kind, 0, seed, False))
+    tf = jax.tree_util.tree_map(lambda l: np.asarray(l, np.float32) + np.float32(0.5), make_tree(kind, 1, seed, False))
+    th = jax.tree_util.tree_map(lambda l: np.asarray(l, np.float16) + np.float16(0.25), make_tree(kind, 2, seed, False))
+    for order in itertools.permutations([ti, tf, th]):
+      got = tree_util.tree_sum(list(order))
+      for g, parts in zip(leaves(got), zip(*[leaves(t) for t in order])):
+        r = sum(np.asarray(q, np.float64) for q in parts)
+        require(bool(np.all(np.abs(np.asarray(g, np.float64) - r) <= 2e-3 * (1 + np.abs(r)))), 'tree_sum over trees of different '
+                'dtypes (order %s)' % [str(np.asarray(leaves(t)[0]).dtype) for t in order], r.tolist(), np.asarray(g, np.float64).tolist(),
+                case=case)
+      evals += 1
+  return {'evals': evals + 4, 'nontrivial': True, 'outcome': [kind, as_jax]}
+
+
 def clip_case(case):
   import jax
   import jax.numpy as jnp
@@ -296,7 +350,7 @@ def clip_case(case):
   return {'evals': evals, 'nontrivial': norm > 0, 'outcome': [kind, round(norm, 3)]}
 
 
-SUBS = {'mean': mean_case, 'sum': sum_case, 'clip': clip_case}
+SUBS = {'mean': mean_case, 'sum': sum_case, 'clip': clip_case, 'utils': utils_case}
 TIMEOUTS = {k: 600 for k in SUBS}
 
 
@@ -328,6 +382,9 @@ def plan(ctx):
   for tree in ('vec', 'nested', 'half'):
     mc.append({'tree': tree, 'weights': [1.0] * 64 + [2.0] * 36 + [0.0] * 20 + [0.5] * 8, 'jax': True, 'seed': ctx.seed,
                'all_orders': False})
+  for ws in ([2.0, 1.5, 3.0], [3.0, 0.5], [1.0, 2.0, 0.5, 2.0]):
+    for tree in ('int', 'vec', 'half'):
+      mc.append({'tree': tree, 'weights': ws, 'jax': True, 'seed': ctx.seed, 'all_orders': True, 'wtype': 'pyint'})
   for wt in ('uint8', 'int8', 'int16', 'jint8', 'f64arr', 'f64arr1', 'f32arr'):
     for ws in ([2.0, 2.0, 1.0], [2.0, 2.0, 2.0, 2.0], [0.0, 0.0], [1.0, 2.0], [2.0, 2.0]):
       for tree in ('vec', 'nested'):
@@ -335,6 +392,7 @@ def plan(ctx):
   ctx.pmap('mean', mc, chunk=24)
   ctx.run('sum', [{'tree': t, 'n': n, 'jax': j, 'seed': ctx.seed} for t in TREES for n in (1, 2, 3, 4)
                   for j in (True, False) if th or n <= 3 or j])
+  ctx.run('utils', [{'tree': t, 'jax': j, 'seed': ctx.seed} for t in TREES for j in (True, False)])
   ctx.run('clip', [{'tree': t, 'k': k, 'jax': j, 'seed': ctx.seed, 'zero': z} for t in TREES[:5] for k in range(3)
                    for j in (True, False) for z in (False, True) if not (z and k)] +
           [{'tree': t, 'k': k, 'jax': j, 'seed': ctx.seed, 'zero': False, 'scale': sc} for t in TREES[:5] for k in range(2)
